@@ -24,7 +24,8 @@ CONSTANTS
   HOps = @HOPS@
   ReadLens = @READLENS@
   WriteLens = @WRITELENS@
-  N400 = 51
+  N400C = 51
+  N400T = 53
   MaxSteps = @STEPS@
   MinSteps = @MINSTEPS@
   MaxData = @MAXDATA@
